@@ -7,6 +7,7 @@ import (
 	"strings"
 	"testing"
 
+	"github.com/trustbloc/sidetree-go/pkg/patch"
 	"github.com/trustbloc/sidetree-go/pkg/versions/1_0/doccomposer"
 	"github.com/trustbloc/sidetree-go/pkg/versions/1_0/operationparser/patchvalidator"
 	"pgregory.net/rapid"
@@ -173,7 +174,11 @@ func TestC11_IetfCannotTouchKeys(t *testing.T) {
 			kind, _ := o.(map[string]interface{})["op"].(string)
 			labels = append(labels, "op-"+kind)
 		}
-		if verr := patchvalidator.Validate(lp); verr != nil {
+		verr := patchvalidator.Validate(lp)
+		if again := patchvalidator.Validate(lp); (verr == nil) != (again == nil) {
+			t.Fatalf("C11 the validator's verdict on one and the same patch changed between calls: first %v, then %v\n patch=%s", verr, again, refJCS(ops))
+		}
+		if verr != nil {
 			labels = append(labels, "refused-by-validator")
 			st.Case(false, "", labels...)
 			return
@@ -201,6 +206,59 @@ func TestC11_IetfCannotTouchKeys(t *testing.T) {
 			labels = append(labels, "validated-mentions-protected")
 		}
 		st.Case(mentions || changed, refJCS(doc)+refJCS(ops), labels...)
-		st.Sample("validated", 3, func() interface{} { return map[string]interface{}{"doc": doc, "ops": ops, "result": mustJSON(docCanon(got))} })
+		st.Sample("validated", 3, func() interface{} {
+			return map[string]interface{}{"doc": doc, "ops": ops, "result": mustJSON(docCanon(got))}
+		})
+	})
+}
+
+// FuzzC11: coverage-guided search over the text of the operation list. The oracle is the property itself and needs no
+// model: whatever passes validation and applies leaves the keys and services of the document as they were.
+func FuzzC11(f *testing.F) {
+	for _, s := range []string{
+		`[{"op":"add","path":"/x","value":1}]`,
+		`[{"op":"move","from":"/publicKey/0","path":"/x"}]`,
+		`[{"op":"copy","from":"/x","path":"/publicKey/-"}]`,
+		`[{"op":"replace","path":"","value":{}}]`,
+		`[{"op":"remove","path":"/service/0/type"}]`,
+		`[{"op":"add","path":"/a~1b","value":null},{"op":"test","path":"/publicKey/0/id","value":"k1"}]`,
+		`[{"Op":"remove","op":"test","Path":"/publicKey","path":"/x"}]`,
+		`[{"op":"move","from":"/x/y/0","path":"/x/y/-"},{"op":"copy","from":"/alsoKnownAs","path":"/aka2"}]`,
+		`[{"op":"add","path":"/x/publicKey","value":[]},{"op":"move","from":"/x","path":"/z"}]`,
+		`[{"op":"remove","path":"/x"},{"op":"add","path":"","value":{"publicKey":[]}}]`,
+		`[{"op":"replace","path":"/publicKey/0/id","value":"other"}]`,
+		`[{"op":"copy","from":"/publicKey/0","path":"/service/0/copied"}]`,
+	} {
+		f.Add(s, byte(0))
+	}
+	k1 := map[string]interface{}{"id": "k1", "type": tJWK2020, "purposes": []interface{}{"authentication"}, "publicKeyJwk": docJWK(pool()[ktP256][0])}
+	k2 := map[string]interface{}{"id": "k2", "type": tJWK2020, "publicKeyJwk": docJWK(pool()[ktEd25519][0])}
+	svc := map[string]interface{}{"id": "s1", "type": "website", "serviceEndpoint": "https://s.example/"}
+	docs := []map[string]interface{}{
+		{"publicKey": []interface{}{k1, k2}, "service": []interface{}{svc}, "alsoKnownAs": []interface{}{"https://a.example/"}, "x": map[string]interface{}{"y": []interface{}{"1", "2"}}, "a/b": "v"},
+		{"publicKey": []interface{}{k1}, "x": "v", "publicKeyX": []interface{}{k2}},
+		{"publicKey": []interface{}{k2, k1}, "service": []interface{}{svc, map[string]interface{}{"id": "s2", "type": "t", "serviceEndpoint": []interface{}{"https://a.example/", "https://b.example/"}}}},
+	}
+	composer := doccomposer.New()
+	f.Fuzz(func(t *testing.T, ops string, sel byte) {
+		if len(ops) > 4096 {
+			return
+		}
+		lp, err := patch.FromBytes([]byte(`{"action":"ietf-json-patch","patches":` + ops + `}`))
+		if err != nil {
+			return
+		}
+		if patchvalidator.Validate(lp) != nil {
+			return
+		}
+		doc := docs[int(sel)%len(docs)]
+		before := protectedCanon(doc)
+		got, err := composer.ApplyPatches(libDoc(doc), lpList(lp))
+		if err != nil {
+			return
+		}
+		if after := protectedCanon(got); after != before {
+			t.Fatalf("C11 validated ietf-json-patch changed keys/services\n doc=%s\n patch=%s\n before=%s\n after= %s", refJCS(doc), ops, before, after)
+		}
 	})
 }
